@@ -132,6 +132,10 @@ def gen_cases(tier: str, seed: int):
     for what in ("missing_table", "unknown_column", "missing_schema"):
         for txn in (False, True):
             yield {"part": "write_pandas_fails", "what": what, "txn": txn}
+    for style in ("qmark", "pyformat"):
+        for what in ("missing_table", "unknown_column", "no_context", "undefined_variable", "closed"):
+            yield {"part": "executemany_fails", "style": style, "what": what}
+    yield {"part": "same_text_after_unset"}
     for i in range(len(FAILS)):
         if FAILS[i][2] not in ("ctx", "ctx1"):
             yield {"part": "nop_after_failure", "fail": i}
@@ -183,6 +187,10 @@ def run_case(case: dict, env: core.Env) -> None:
         return _stale_description(case, env)
     if case["part"] == "write_pandas_fails":
         return _write_pandas_fails(case, env)
+    if case["part"] == "executemany_fails":
+        return _executemany_fails(case, env)
+    if case["part"] == "same_text_after_unset":
+        return _same_text_after_unset(case, env)
     if case["part"] == "nop_after_failure":
         return _nop_after_failure(case, env)
     name, sql, req, cause = FAILS[case["fail"]]
@@ -338,6 +346,88 @@ def _stale_description(case: dict, env: core.Env) -> None:
         except Exception as e:  # noqa: BLE001
             env.witness(f"C07/stale-description/not-a-snowflake-error/{what}/{type(e).__name__}", str(e)[:300])
         env.nontrivial(("stale_description", what))
+    finally:
+        fs.duck_conn.close()
+
+
+def _executemany_fails(case: dict, env: core.Env) -> None:
+    """executemany is execute, row after row: same errors, same cursor.sqlstate life cycle, same closed-connection answer."""
+    fs = core.new_fs()
+    try:
+        style, what = case["style"], case["what"]
+        c0 = fs.connect("db1", "s1")
+        c0.cursor().execute("CREATE TABLE ORDERS (ID INT, NOTE VARCHAR(20))")
+        conn = fs.connect("db1", None if what == "no_context" else "s1", paramstyle="qmark" if style == "qmark" else "pyformat")
+        ph = "?" if style == "qmark" else "%s"
+        cur = conn.cursor()
+        sql, want = {
+            "missing_table": (f"INSERT INTO DB1.S1.NO_SUCH_T (ID) VALUES ({ph})", (2003, "42S02")),
+            "unknown_column": (f"INSERT INTO DB1.S1.ORDERS (NOCOL) VALUES ({ph})", None),
+            "no_context": (f"INSERT INTO ORDERS (ID) VALUES ({ph})", (90106, "22000")),
+            "undefined_variable": (f"INSERT INTO DB1.S1.ORDERS (ID, NOTE) VALUES ({ph}, $NO_SUCH_VARIABLE)", None),
+            "closed": (f"INSERT INTO DB1.S1.ORDERS (ID) VALUES ({ph})", (250002, "08003")),
+        }[what]
+        if what == "closed":
+            conn.close()
+        env.count("cmp_exception")
+        try:
+            cur.executemany(sql, [(1,), (2,)])
+            env.witness(f"C07/statement-succeeded/executemany-{what}/{style}", sql)
+            return
+        except core.sferr.DatabaseError as e:
+            is_prog = isinstance(e, core.sferr.ProgrammingError)
+            if what == "closed":
+                if is_prog or (e.errno, e.sqlstate) != want:
+                    env.witness(f"C07/closed-connection/wrong-codes/executemany/{style}", f"{type(e).__name__} {e.errno}/{e.sqlstate}")
+                return
+            if not is_prog:
+                env.witness(f"C07/not-a-snowflake-error/executemany-{what}/{style}/{type(e).__name__}", str(e)[:200])
+                return
+            if want and (e.errno, e.sqlstate) != want:
+                env.witness(f"C07/wrong-codes/executemany-{what}/{style}", f"{e.errno}/{e.sqlstate} expected {want}")
+            env.count("cmp_sqlstate_lifecycle")
+            if cur.sqlstate != e.sqlstate:
+                env.witness(f"C07/sqlstate-not-set/executemany/{style}", f"{sql}: exception sqlstate {e.sqlstate} but cursor.sqlstate {cur.sqlstate!r}")
+        except Exception as e:  # noqa: BLE001
+            env.witness(f"C07/not-a-snowflake-error/executemany-{what}/{style}/{type(e).__name__}", str(e)[:200])
+            return
+        # a later successful executemany resets it
+        ok_sql = f"INSERT INTO DB1.S1.ORDERS (ID) VALUES ({ph})"
+        try:
+            cur.executemany(ok_sql, [(5,), (6,)])
+            if cur.sqlstate is not None:
+                env.witness(f"C07/sqlstate-not-reset/by-executemany/{style}", f"cursor.sqlstate {cur.sqlstate!r} after a successful executemany")
+            n = c0.cursor().execute("SELECT COUNT(*) FROM ORDERS").fetchall()
+            if n != [(2,)]:
+                env.witness(f"C07/failed-statement-changed-state/executemany-{what}/{style}", f"ORDERS holds {n} rows, expected the 2 of the successful call")
+        except Exception as e:  # noqa: BLE001
+            env.witness(f"C07/connection-unusable-after/executemany-{what}/{style}", f"{type(e).__name__}: {e}"[:200])
+        env.nontrivial(("executemany_fails", style, what))
+    finally:
+        fs.duck_conn.close()
+
+
+def _same_text_after_unset(case: dict, env: core.Env) -> None:
+    fs = core.new_fs()
+    try:
+        conn = fs.connect("db1", "s1")
+        cur = conn.cursor()
+        cur.execute("CREATE TABLE ORDERS (ID INT, NOTE VARCHAR(20))")
+        cur.execute("SET KEEP = 7")
+        for text in ("SELECT $KEEP", "INSERT INTO ORDERS (ID) VALUES ($KEEP)", "SELECT ID FROM ORDERS WHERE ID = $KEEP"):
+            cur.execute(text)
+        cur.execute("UNSET KEEP")
+        for text in ("SELECT $KEEP", "INSERT INTO ORDERS (ID) VALUES ($KEEP)", "SELECT ID FROM ORDERS WHERE ID = $KEEP"):
+            env.count("cmp_exception")
+            o = core.run_stmt(conn.cursor(), text)
+            if o["ok"]:
+                env.witness("C07/statement-succeeded/undefined-variable-same-text-as-before-unset", f"{text} -> {o['rows']}")
+            elif o["exc"]["cls"] != "ProgrammingError":
+                env.witness(f"C07/not-a-snowflake-error/undefined-variable/{o['exc']['cls']}", text)
+        n = cur.execute("SELECT COUNT(*) FROM ORDERS").fetchall()
+        if n != [(1,)]:
+            env.witness("C07/failed-statement-changed-state/undefined-variable-same-text", f"ORDERS holds {n}")
+        env.nontrivial(("same_text_after_unset",))
     finally:
         fs.duck_conn.close()
 
